@@ -15,6 +15,9 @@
      lrange / lrr / lrack : the leader path; <partitions> is the CLUSTER.
                   "<as range / rr / rack, computed by leader_range / leader_rr / on leader_partitions>
                   req=<leader_requests: r1;r2;...  r = hex topics joined by ',', '-' = empty request>"
+                  lrange / lrr also: " wire=<canonical form of wire_triples (sync_request assignment)>", what
+                  the coordinator receives in the leader's SyncGroup request (lrack: the wire must be, per
+                  topic, one of the same alternatives; checked by checks/c14.py)
      MODELINCONSISTENT when rack_assign / rack_assign_canonical / rack_assign_topic disagree, or
      leader_partitions / leader_rack disagree with read_partitions / rack_assign. *)
 open C14_model
@@ -158,12 +161,14 @@ let eval (op : string) (a : string list) : string =
     let ms = parse_members m in
     let cl = parse_partitions p in
     if not (leader_partitions_ok ms cl) then "MODELINCONSISTENT" else
-    canon_triples (leader_range ms cl) ^ " req=" ^ req_of ms cl
+    let a = leader_range ms cl in
+    canon_triples a ^ " req=" ^ req_of ms cl ^ " wire=" ^ canon_triples (wire_triples (sync_request a))
   | "lrr", [m; p] ->
     let ms = parse_members m in
     let cl = parse_partitions p in
     if not (leader_partitions_ok ms cl) then "MODELINCONSISTENT" else
-    canon_triples (leader_rr ms cl) ^ " req=" ^ req_of ms cl
+    let a = leader_rr ms cl in
+    canon_triples a ^ " req=" ^ req_of ms cl ^ " wire=" ^ canon_triples (wire_triples (sync_request a))
   | "lrack", [m; p] ->
     let ms = parse_members m in
     let cl = parse_partitions p in
